@@ -197,6 +197,11 @@ def fam_bulk(c, N, sz):
     return out
 
 
+def fam_extend_ref(c, N, sz):
+    """Extend<&T> for T: Copy (u8 cases only)"""
+    return ["extend_ref " + c.es(k) for k in range(0, 2 * N + 2)]
+
+
 def fam_mut_views(c, N, sz):
     out = []
     for i in idxs(N, sz):
@@ -266,7 +271,7 @@ def fam_iter_forms(c, N, sz):
 
 
 def fam_constructors(c, N, sz):
-    out = ["new", "clone_drop", "clone_keep", "to_vec", "into_iter -",
+    out = ["new", "default", "clone_drop", "clone_keep", "to_vec", "into_iter -",
            "into_iter " + ",".join("n" * (sz + 1)), "into_iter " + ",".join("b" * (sz + 1)),
            "into_iter n,b,l", "into_iter l,n"]
     for m in range(0, 2 * N + 2):
